@@ -149,6 +149,33 @@ def same_object_replay(src, seed, actions, modes):
     return None
 
 
+def generator_object_reuse(params, expected):
+    """the documented class API: one ScenarioGenerator object generating the same
+    (parameters, seed) three times (another parameter set in between) must return
+    the scenario a fresh object returns"""
+    from nasim.scenarios.generator import ScenarioGenerator
+    from .budget import BudgetExceeded, guarded_generate
+    g = ScenarioGenerator()
+    try:
+        for k in range(3):
+            scn = guarded_generate(lambda: g.generate(**params))
+            if scenario_fingerprint(scn) != expected:
+                return k + 1
+            if k == 0:
+                other = dict(params, seed=(params.get("seed") or 0) + 1, num_hosts=params["num_hosts"] + 1)
+                other.pop("address_space_bounds", None)
+                guarded_generate(lambda: g.generate(**other))
+    except BudgetExceeded:
+        return None
+    except Exception as e:
+        import sys
+        inside, where = engine.from_nasim(sys.exc_info()[2])
+        if not inside:
+            raise
+        return f"{k + 1} raises {type(e).__name__} at {where} and therefore"
+    return None
+
+
 def worker_main(path):
     """subprocess entry: compute fingerprints / trajectory hashes for a batch"""
     jobs = json.load(open(path))
@@ -275,6 +302,10 @@ def main(tier, replay=None):
                 first.append(scenario_fingerprint(scn))
                 second.append(scenario_fingerprint(build_scenario(j["source"])))
                 if j["source"]["kind"] == "gen":
+                    reuse = generator_object_reuse(j["source"]["params"], first[-1])
+                    if reuse is not None:
+                        rep.fail("C14:generator-object-reuse", f"one ScenarioGenerator object, generate(**params) called repeatedly with the same "
+                                 f"parameters and seed: call {reuse} differs from the first", dict(job=j))
                     nt = sampled_rule(scn, j["source"]["params"])
                 else:
                     nt = sampled_rule(scn, AVAIL_GEN_BENCHMARKS[j["source"]["name"]])
